@@ -174,6 +174,30 @@ def gen_case(rng, index, tier):
             stem_of['name'] = rng.choice(mine)['name']
         L.add(malformed_nodes(rng, t, kind, j, index, same_as=same))
         mk.append(kind_l)
+    if rng.random() < 0.12:
+        # a sibling trash directory (holding none of the well-formed entries)
+        # that is not built like one: info or files is a regular file, a
+        # dangling link, a link loop
+        have = set(n_['p'] for n_ in L.nodes)
+        cands = [L.vol_path(m, '.Trash-%d' % L.uid) for m in L.mounts]
+        cands = [c for c in cands if c not in have and
+                 not any(h.startswith(c + '/') for h in have)]
+        if cands:
+            c = rng.choice(cands)
+            L.add({'p': c, 't': 'd', 'm': 0o700})
+            how = rng.choice(['info-file', 'files-file', 'both-files',
+                              'info-dangling', 'info-loop'])
+            if how in ('info-file', 'both-files'):
+                L.add({'p': c + '/info', 't': 'f', 'c': 'junk'})
+            if how in ('files-file', 'both-files'):
+                L.add({'p': c + '/files', 't': 'f', 'c': 'junk'})
+            if how == 'info-dangling':
+                L.add({'p': c + '/info', 't': 'l', 'to': 'nowhere'})
+            if how == 'info-loop':
+                L.add({'p': c + '/info', 't': 'l', 'to': 'info'})
+            if how == 'files-file':
+                L.add({'p': c + '/info', 't': 'd'})
+            mk.append('sibling-trash-dir:' + how)
     case = L.desc()
     case['nodes_g'] = base_nodes
     if 'unreadable-info' in mk or 'unremovable-payload' in mk:
